@@ -41,5 +41,8 @@ func main() {
 		&lib.Prop{ID: "C15", Part: "real-recovery", Level: "fault_enumeration", NCases: n(12, 400), Run: c01FullRestart,
 			Assumptions: append([]string{"slow tier: real workers; the same scenarios as C01/full-restart, judged for C15: deploys only to live nodes, exactly W members, one checkpoint per deploy round, checkpointing resumes after the recovery (or stuck-state witness), replacement workers keep processing to the end of the input"}, clAssume...),
 			Rule: "see C01/full-restart (crash points incl. during a checkpoint after the j-th acknowledgement); C15 oracles: deployOracle + bounded progress (a checkpoint is published after the last recovery) + every record of the input processed by the recovered assembly"},
+		&lib.Prop{ID: "C14", Part: "savepoint", Level: "exploration", NCases: n(20, 600), Run: c14Savepoint,
+			Assumptions: append([]string{"local-directory storage (the artifact code copies files)", "restore = a new job created with SavepointURI after every worker and the job were killed and the working storage and the job's checkpoints directory were deleted"}, clAssume...),
+			Rule: "a job builds state (memory only or flushed, by dkv tuning; timers pending), 0..2 periodic checkpoints, then a savepoint is requested when idle / mid flow / while a periodic checkpoint is in progress with its acknowledgements held (once or twice); the job continues (more records, more checkpoints, retention); everything is killed and ALL working storage deleted; a new job starts from the savepoint URI with the same or a different worker count; oracles: the request folds into the pending checkpoint (same id, no extra StartCheckpoint), first phase undisturbed (handler-side state oracle), after the restore the shadow is the cut of the savepoint's checkpoint and every handler invocation's supplied state must equal it, every split resumes from the recorded position, pending timers fire, every keyed event of the input takes effect exactly once; non-trivial = always; distinct by (options, mode, positions)"},
 	)
 }
